@@ -6,18 +6,24 @@
 //! case reader never has to interpret escapes; serde_json is used only to READ the case structure, never to
 //! judge the formatter's output (the driver parses that with Python's json module).
 //!
-//! case  = {"id":N, "opts":{flatten,cur,list,target,level,file,line,tname,tid : bool, "ts": null|hex},
+//! case  = {"id":N, "opts":{flatten,cur,list,target,level,file,line,tname,tid : bool, "ts": null|hex,
+//!                         sev_new,sev_enter,sev_exit,sev_close : bool (with_span_events; absent = false)},
 //!          "thread": null|hex,
 //!          "callsites":[{"kind":"span"|"event","name":hex,"target":hex,"level":0..4,"file":null|hex,"line":null|N,"fields":[hex..]}],
 //!          "ops":[{"op":"span","cs":i,"id":k,"parent":-2(contextual)|-1(root)|j,"vals":VALS}
 //!                 {"op":"enter","id":k} {"op":"exit","id":k} {"op":"record","id":k,"vals":VALS}
-//!                 {"op":"event","cs":i,"parent":-2|-1|j,"vals":VALS}]}
+//!                 {"op":"event","cs":i,"parent":-2|-1|j,"vals":VALS}
+//!                 {"op":"close","id":k}   (the handle is dropped; the driver only does this when nothing else
+//!                                          refers to the span, so that it closes right here)]}
 //! VALS  = [[field_index, {"t":TYPE,"v":...}], ...]   (array order = order of the pairs in the ValueSet)
 //! TYPE  = u8 u16 u32 u64 usize i8 i16 i32 i64 isize u128 i128 ("v": decimal string) | bool ("v": true/false)
 //!         | str | debug | display | args ("v": hex text) | bytes ("v": hex) | f64 ("v": 16 hex digits = bits)
 //!         | f32 ("v": 8 hex digits) | error ("v": [hex text, ...] = Display of the error and of its sources)
 //!         | empty (tracing::field::Empty) | unset (the pair carries no value)
-//! output = {"id":N,"tid":hex(Debug of the thread id),"events":[[hex chunk,...],...],"panic":null|hex}
+//! output = {"id":N,"tid":hex(Debug of the thread id),"out":[[hex chunk,...] per op, in op order],"panic":null|hex}
+//!          (one chunk per `write` call on the MakeWriter's writer; the fmt layer hands over one record per call)
+//! Built twice by the driver: plain, and with the package feature `log` = tracing-subscriber's (default) `tracing-log`
+//! feature (bin h_json_log); the first output line says which.
 use std::fmt;
 use std::io::{self, BufRead, Write};
 use std::sync::{Arc, Mutex, OnceLock};
@@ -274,12 +280,13 @@ struct Out {
     tid: String,
 }
 
-fn run_ops(case: &J, rec: &Rec, out: &Arc<Mutex<Out>>) {
+fn run_ops(case: &J, rec: &Rec, out: &Arc<Mutex<Out>>, disp: &Dispatch) {
     out.lock().unwrap().tid = hex(format!("{:?}", std::thread::current().id()).as_bytes());
     let metas: Vec<&'static Metadata<'static>> = case["callsites"].as_array().unwrap().iter().map(make_meta).collect();
     let mut spans: std::collections::BTreeMap<i64, Span> = Default::default();
     let parent_id = |spans: &std::collections::BTreeMap<i64, Span>, p: i64| -> Option<Id> { spans.get(&p).and_then(|s| s.id()) };
     for op in case["ops"].as_array().unwrap() {
+        rec.0.lock().unwrap().clear();
         match op["op"].as_str().unwrap() {
             "span" => {
                 let meta = metas[op["cs"].as_u64().unwrap() as usize];
@@ -294,11 +301,13 @@ fn run_ops(case: &J, rec: &Rec, out: &Arc<Mutex<Out>>) {
             }
             "enter" => {
                 let id = spans[&op["id"].as_i64().unwrap()].id().expect("enabled span");
-                tracing::dispatch::get_default(|d| d.enter(&id));
+                // NOT inside `get_default(|d| ..)`: the registry's `exit` releases the entry's reference through
+                // `dispatch::get_default`, which is the no-op collector while a `get_default` closure is running
+                disp.enter(&id);
             }
             "exit" => {
                 let id = spans[&op["id"].as_i64().unwrap()].id().expect("enabled span");
-                tracing::dispatch::get_default(|d| d.exit(&id));
+                disp.exit(&id);
             }
             "record" => {
                 let s = &spans[&op["id"].as_i64().unwrap()];
@@ -311,17 +320,19 @@ fn run_ops(case: &J, rec: &Rec, out: &Arc<Mutex<Out>>) {
                 let meta = metas[op["cs"].as_u64().unwrap() as usize];
                 let p = op["parent"].as_i64().unwrap();
                 let pid = parent_id(&spans, p);
-                rec.0.lock().unwrap().clear();
                 with_values(meta, &op["vals"], &mut |vs| match p {
                     -2 => Event::dispatch(meta, vs),
                     -1 => Event::child_of(None, meta, vs),
                     _ => Event::child_of(pid.clone(), meta, vs),
                 });
-                let chunks: Vec<String> = rec.0.lock().unwrap().drain(..).map(|c| hex(&c)).collect();
-                out.lock().unwrap().events.push(chunks);
+            }
+            "close" => {
+                drop(spans.remove(&op["id"].as_i64().unwrap()).expect("live span handle"));
             }
             other => panic!("unknown op {}", other),
         }
+        let chunks: Vec<String> = rec.0.lock().unwrap().drain(..).map(|c| hex(&c)).collect();
+        out.lock().unwrap().events.push(chunks);
     }
     // exit everything that is still entered is unnecessary: the dispatcher dies with the thread's scope.
     std::mem::forget(spans); // handles are never dropped before the case ends (no span closes mid-case)
@@ -342,6 +353,23 @@ fn run_case(case: &J) -> String {
         .with_line_number(b("line"))
         .with_thread_names(b("tname"))
         .with_thread_ids(b("tid"))
+        .with_span_events({
+            use tracing_subscriber::fmt::format::FmtSpan;
+            let mut k = FmtSpan::NONE;
+            if b("sev_new") {
+                k |= FmtSpan::NEW;
+            }
+            if b("sev_enter") {
+                k |= FmtSpan::ENTER;
+            }
+            if b("sev_exit") {
+                k |= FmtSpan::EXIT;
+            }
+            if b("sev_close") {
+                k |= FmtSpan::CLOSE;
+            }
+            k
+        })
         .with_writer(rec.clone());
     let dispatch = if o["ts"].is_null() {
         Dispatch::new(tracing_subscriber::registry().with(layer.without_time()))
@@ -356,7 +384,7 @@ fn run_case(case: &J) -> String {
     let (case2, rec2, out2) = (case.clone(), rec.clone(), out.clone());
     let h = builder
         .spawn(move || {
-            tracing::dispatch::with_default(&dispatch, || run_ops(&case2, &rec2, &out2));
+            tracing::dispatch::with_default(&dispatch, || run_ops(&case2, &rec2, &out2, &dispatch));
         })
         .expect("spawn");
     let panic = match h.join() {
@@ -372,7 +400,7 @@ fn run_case(case: &J) -> String {
     let o = out.lock().unwrap_or_else(|e| e.into_inner());
     // chunks written by an event whose dispatch panicked half-way (none expected) are reported as a last, partial event
     let pending: Vec<String> = rec.0.lock().unwrap_or_else(|e| e.into_inner()).drain(..).map(|c| hex(&c)).collect();
-    let mut s = format!("{{\"id\":{},\"tid\":\"{}\",\"events\":[", case["id"], o.tid);
+    let mut s = format!("{{\"id\":{},\"tid\":\"{}\",\"out\":[", case["id"], o.tid);
     for (i, ev) in o.events.iter().enumerate() {
         if i > 0 {
             s.push(',');
@@ -402,7 +430,13 @@ fn main() {
     };
     let stdout = io::stdout();
     let mut w = io::BufWriter::new(stdout.lock());
-    writeln!(w, "{{\"build\":\"{}\"}}", if cfg!(debug_assertions) { "debug" } else { "release" }).unwrap();
+    writeln!(
+        w,
+        "{{\"build\":\"{}\",\"log\":{}}}",
+        if cfg!(debug_assertions) { "debug" } else { "release" },
+        cfg!(feature = "log")
+    )
+    .unwrap();
     for line in input.lines() {
         let line = line.expect("read");
         if line.trim().is_empty() {
